@@ -42,8 +42,11 @@ def r1(ctx, cfg):
         f = ctx.need_fn(R, key)
         if f is None:
             continue
-        # form-agnostic: `Self::verify_response(self.with_storage(..)?)`, `self.with_storage(..).and_then(Self::verify_response)`
-        # and a spliced private helper doing either have the same return origin
+        # "makes that call fail, with the same rollback as any other contract error ... before any effect is kept": with_storage
+        # keeps the contract's writes as soon as its action answers Ok (its own `transactional`), so the response has to be
+        # validated *inside* that action - `with_storage(.., |c, deps, env| verify_response(c.execute(..)?))`.  Validating the
+        # result of with_storage rejects the call after its writes were committed: under an enclosing transaction that is
+        # rolled back anyway, but `call_execute` on a plain store, or a module that catches the error, keeps them.
         ws = q.calls(f, W + "with_storage")
         ok = len(ws) == 1
         ctx.ob(R, key, "shape", ok, "%s must run with_storage once (found %d)" % (name, len(ws)), fn=f, sample="1")
@@ -51,13 +54,57 @@ def r1(ctx, cfg):
             continue
         ret = peel(P.ret(f))
         rest = [peel(o) for o in alts(ret) if not (peel(o)[0] == "call" and peel(o)[1].endswith("FromResidual::from_residual"))]
-        ok = len(rest) == 1 and rest[0][0] == "call" and rest[0][1] == W + "verify_response"
-        ctx.ob(R, key, "only-validated-response-returned", ok, "%s returns %s" % (name, fmt(ret)[:120]), fn=f,
-               sample="returns verify_response(..) | propagated error")
-        a = peel(rest[0][2][0]) if ok else ("?",)
-        ok = ok and a[0] == "ok" and peel(a[1])[0] == "call" and peel(a[1])[1] == W + "with_storage"
-        ctx.ob(R, key, "response-is-validated", ok, "verify_response receives %s" % fmt(a)[:100], fn=f,
-               sample="verify_response(with_storage(..)?)")
+        vals = q.success_payloads(P, f)
+        handed_on = len(rest) == 1 and rest[0][0] == "call" and rest[0][1] == W + "with_storage"
+        rewrapped = bool(vals) and all(peel(v)[0] == "ok" and peel(peel(v)[1])[0] == "call" and peel(peel(v)[1])[1] == W + "with_storage" for v in vals)
+        ctx.ob(R, key, "only-validated-response-returned", handed_on or rewrapped,
+               "%s returns %s: the response is not the one validated inside with_storage%s" % (
+                   name, fmt(ret)[:120], " (verify_response runs on with_storage's result: after the contract's writes were committed)"
+                   if any(contains(o, lambda x: x[0] == "call" and x[1] == W + "verify_response") for o in rest) else ""), fn=f,
+               sample="returns with_storage(.., |c, deps, env| verify_response(c.%s(..)?))" % name.replace("call_", ""))
+        a = P.call_args(f, ws[0][1], ws[0][0])
+        clo = peel(a[-1])
+        g = F.fn(clo[1]) if clo[0] == "closure" else None
+        ok = g is not None
+        d = "the action handed to with_storage is %s" % fmt(clo)[:80]
+        if ok:
+            gv = q.success_payloads(P, g)
+            def validated(v):
+                v = peel(v)
+                if v[0] == "ok":
+                    v = peel(v[1])
+                if not (v[0] == "call" and v[1] == W + "verify_response" and len(v[2]) == 1):
+                    return False
+                r = peel(v[2][0])
+                c = peel(r[1]) if r[0] == "ok" else ("?",)
+                return c[0] == "call" and c[1] == "contracts::Contract::" + name.replace("call_", "")
+            # (`c.execute(..).and_then(Self::verify_response)` is the same answer: the error handed on, or the verified response)
+            gv = [x for v in gv for x in alts(peel(v)) if not (peel(x)[0] == "call" and peel(x)[1].endswith("FromResidual::from_residual"))]
+            ok = bool(gv) and all(validated(v) for v in gv)
+            d = "the action answers %s" % [fmt(peel(v))[:100] for v in gv]
+        ctx.ob(R, key, "response-is-validated", ok, "%s: every answer of the action must be verify_response(<entry point's response>)" % d, fn=f,
+               sample="action = |c, deps, env| verify_response(c.%s(..)?)" % name.replace("call_", ""))
+    # ... and with_storage keeps the writes only when its action answered Ok: its result is `transactional(storage, |cache, _| action(..))`
+    wsf = ctx.need_fn(R, W + "with_storage")
+    if wsf is not None:
+        tr = [(g, b, t) for g in F.lexical(W + "with_storage") for b, t in g.calls() if t["callee"]["key"] == "transactions::transactional"]
+        ok = len(tr) == 1
+        d = "%d transactional calls" % len(tr)
+        if ok:
+            g0, b0, t0 = tr[0]
+            clo = peel(P.call_args(g0, t0, b0)[1])
+            h = F.fn(clo[1]) if clo[0] == "closure" else None
+            hv = q.success_payloads(P, h) if h is not None else []
+            def is_action(v):
+                v = peel(v)
+                if v[0] == "ok":
+                    v = peel(v[1])
+                return v[0] == "call" and v[1].startswith("std::ops::Fn") and is_param(v[2][0], "action")
+            rs = [peel(o) for o in alts(peel(P.ret(wsf))) if not (peel(o)[0] == "call" and peel(o)[1].endswith("FromResidual::from_residual"))]
+            ok = h is not None and bool(hv) and all(is_action(v) for v in hv) and len(rs) == 1 and rs[0][0] == "call" and rs[0][1] == "transactions::transactional"
+            d = "the transaction's closure answers %s; with_storage answers %s" % ([fmt(peel(v))[:60] for v in hv], [fmt(r)[:60] for r in rs])
+        ctx.ob(R, W + "with_storage", "writes-kept-iff-the-action-answers-Ok", ok, "with_storage: %s" % d, fn=wsf,
+               sample="transactional(storage, |cache, _| action(handler, deps, env))")
     # with_storage is called only from the call_* wrappers; verify_response is total over its callers
     callers = sorted({f.key.split("::{closure")[0] for f, b, t in q.all_calls(F, W + "with_storage")})
     ctx.ob(R, W + "with_storage", "callers-are-the-validating-wrappers", callers == sorted(W + n for n in CALLS),
